@@ -23,6 +23,9 @@ ALPHABET = (1.0, 2.0, NAN, -3.0)
 COMBOS = np.array(list(itertools.product(ALPHABET, repeat=3))).T   # (3, 64)
 ID = "id"
 SKIPPED_IN_COLLAPSE = ("time", "lat", "lon")
+# labels of the "channel" dimension (a coordinate); "combo" and "level" stay
+# dimensions without coordinates
+CHANNELS = (10, 20)
 # tolerance for float statistics, relative to max(1, |expected|): numpy's sums
 # over n <= 1300 partners carry an error of about n * 2**-52 ~ 3e-13 relative
 # to the largest partner value, i.e. 1e-12 for the unit-sized alphabets; the
@@ -36,10 +39,11 @@ RTOL = 1e-9
 # --------------------------------------------------------------------------
 
 def point_variables(n, side, id_base, lat=None, lon=None, secs=None,
-                    combos=64):
+                    combos=64, extras=False):
     """Variables of n points of one side as {name: (dims, array)}; the point
     dimension is called "point". side: 0 primary, 1 secondary; combos: how
-    many columns of COMBOS the variable "all" carries."""
+    many columns of COMBOS the variable "all" carries; extras: also the
+    variables of extra_variables()."""
     idx = np.arange(n)
     ids = id_base + idx
     if lat is None:
@@ -50,7 +54,7 @@ def point_variables(n, side, id_base, lat=None, lon=None, secs=None,
     cube = np.array([[[ALPHABET[(i + c + 2 * lv + side) % 4]
                        for lv in range(2)] for c in range(2)] for i in idx],
                     dtype=float).reshape(n, 2, 2)
-    return {
+    out = {
         "time": (("point",), T0 + np.asarray(secs).astype("timedelta64[s]")),
         "lat": (("point",), np.asarray(lat, dtype=float)),
         "lon": (("point",), np.asarray(lon, dtype=float)),
@@ -62,16 +66,46 @@ def point_variables(n, side, id_base, lat=None, lon=None, secs=None,
         "tb": (("channel", "point"),
                np.stack([(idx % 3) * 2.0 + side, ids * 0.25], axis=0)),
         "all": (("point", "combo"), COMBOS[(idx + side) % 3, :combos]),
-        "cube": (("point", "channel", "level"), cube),
+        "Data/cube": (("point", "channel", "level"), cube),
+    }
+    if extras:
+        out.update(extra_variables(n, side, id_base))
+    return out
+
+
+def extra_variables(n, side, id_base):
+    """A per-point bool variable and what a file reader adds without the
+    point dimension: labels of the channel dimension (a coordinate), a
+    per-channel variable, a scalar number and a scalar string; the scalars
+    differ between any two id_base."""
+    return {
+        "flag": (("point",), (np.arange(n) + side) % 3 == 0),
+        "channel": (("channel",), np.array(CHANNELS)),
+        "freq": (("channel",), np.array([89.0 + side, 150.0])),
+        "const": ((), np.array(id_base * 0.5)),
+        "__file": ((), np.array("file-%d" % id_base)),
     }
 
 
-def input_dataset(variables, dim, labels):
-    """A collocate() input: point dimension `dim` with unique labels."""
-    return xr.Dataset(
-        {name: (tuple(dim if d == "point" else d for d in dims), values)
-         for name, (dims, values) in variables.items()},
-        coords={dim: np.asarray(labels)})
+def input_dataset(variables, dim, labels, grid=False):
+    """A collocate() input: point dimension `dim` with unique labels, or,
+    with grid, every point a scan line of its own with one scan position
+    (labels on both dimensions, the time belongs to the scan line)."""
+    if not grid:
+        return xr.Dataset(
+            {name: (tuple(dim if d == "point" else d for d in dims), values)
+             for name, (dims, values) in variables.items()},
+            coords={dim: np.asarray(labels)})
+    data = {}
+    for name, (dims, values) in variables.items():
+        if "point" in dims and name != "time":
+            axis = dims.index("point")
+            values = np.expand_dims(values, axis + 1)
+            dims = dims[:axis] + ("scnline", "scnpos") + dims[axis + 1:]
+        data[name] = (tuple("scnline" if d == "point" else d for d in dims),
+                      values)
+    return xr.Dataset(data, coords={"scnline": np.asarray(labels),
+                                    "scnpos": np.asarray(labels[:1])})
 
 
 def build_compact(names, prim_vars, sec_vars, pairs, interval_s, distance):
@@ -104,15 +138,17 @@ def build_compact(names, prim_vars, sec_vars, pairs, interval_s, distance):
     return ds
 
 
-def built_dataset(names, pairs, id_base=0, combos=64):
+def built_dataset(names, pairs, id_base=0, combos=64, extras=False):
     """Harness-built compact dataset for a compact pair list (list of
     (primary index, secondary index))."""
     rows = list(zip(*pairs))
     n_prim, n_sec = max(rows[0]) + 1, max(rows[1]) + 1
     k = np.arange(len(pairs))
     return build_compact(
-        names, point_variables(n_prim, 0, id_base + 100, combos=combos),
-        point_variables(n_sec, 1, id_base + 500, combos=combos), rows,
+        names, point_variables(n_prim, 0, id_base + 100, combos=combos,
+                               extras=extras),
+        point_variables(n_sec, 1, id_base + 500, combos=combos,
+                        extras=extras), rows,
         (k * 7 + 1) % 59, 0.125 * ((k * 11) % 397))
 
 
@@ -152,24 +188,62 @@ def rows_of(variable, dim):
 
 
 Snapshot = collections.namedtuple(
-    "Snapshot", "names pairs groups per_pair")
+    "Snapshot", "names pairs groups per_pair constants")
 # groups: {group name: {local variable name: (extra dims, rows)}};
-# per_pair: {variable name: (extra dims, rows)} for Collocations/interval etc.
+# per_pair: {variable name: (extra dims, rows)} for Collocations/interval etc.;
+# constants: {group name: {local variable name: (dims, flat values)}} for the
+# variables (and coordinates) of a group without its collocation dimension
+
+
+def flat(variable):
+    return tuple(scalar(v) for v in
+                 np.asarray(variable.values).reshape(-1).tolist())
 
 
 def snapshot(ds):
     names = [str(n) for n in ds["Collocations/group"].values.tolist()]
     pairs = ds["Collocations/pairs"].values.tolist()
     groups = {name: {} for name in names}
+    constants = {name: {} for name in names}
     per_pair = {}
     for var_name, var in ds.variables.items():
         group, _, local = str(var_name).partition("/")
         if group in groups and group + "/collocation" in var.dims:
             groups[group][local] = rows_of(var, group + "/collocation")
+        elif group in groups:
+            constants[group][local] = (tuple(var.dims), flat(var))
         elif (group == "Collocations" and local != "pairs"
               and "Collocations/collocation" in var.dims):
             per_pair[str(var_name)] = rows_of(var, "Collocations/collocation")
-    return Snapshot(names, pairs, groups, per_pair)
+    return Snapshot(names, pairs, groups, per_pair, constants)
+
+
+def stored_point_mismatch(snap, side, variables, position=None):
+    """None, or (variable, id, input row, stored row) for the first stored
+    point of group number `side` that does not carry the values the input
+    point with its id has in `variables` (a point_variables() dict; with
+    `position` = {id: {name: label}} also that). Only variables the result
+    holds under their name and extra dimensions are compared."""
+    name = snap.names[side]
+    ids = [row[0] for row in snap.groups[name][ID][1]]
+    index = {i: k for k, i in enumerate(variables[ID][1].tolist())}
+    for local, (extra, stored) in sorted(snap.groups[name].items()):
+        if position and local in position[ids[0]]:
+            rows = {i: (labels[local],) for i, labels in position.items()}
+        elif local in variables and "point" in variables[local][0]:
+            dims, values = variables[local]
+            wanted = ["point"] + [d.partition("/")[2] for d in extra]
+            if sorted(wanted) != sorted(dims):
+                continue
+            given = rows_of(xr.Variable(dims, values).transpose(*wanted),
+                            "point")[1]
+            rows = {i: given[k] for i, k in index.items()}
+        else:
+            continue
+        for i, row in zip(ids, stored):
+            if rows[i] != row:
+                return (name + "/" + local, i, list(rows[i]), list(row))
+    return None
 
 
 def invalid_pairs(snap):
@@ -191,37 +265,51 @@ def invalid_pairs(snap):
 # reference model
 # --------------------------------------------------------------------------
 
+def row_key(entries):
+    return tuple(sorted(entries, key=lambda entry: entry[0]))
+
+
 def expanded_rows(snap):
     """Multiset of the rows expand() has to return: for pair k the values of
     all primary variables at pairs[0][k], of all secondary variables at
-    pairs[1][k] and the per-pair metadata at k (keyed by variable name)."""
+    pairs[1][k], the per-pair metadata at k and the values of the variables
+    without collocation dimension of this dataset (keyed by variable name)."""
+    constants = [(name + "/" + local, values) for name in snap.names
+                 for local, (_, values) in snap.constants[name].items()]
     out = collections.Counter()
     for k, (i, j) in enumerate(zip(*snap.pairs)):
-        row = []
+        row = list(constants)
         for name, idx in zip(snap.names, (i, j)):
-            for local, (_, rows) in sorted(snap.groups[name].items()):
+            for local, (_, rows) in snap.groups[name].items():
                 row.append((name + "/" + local, rows[idx]))
-        for var_name, (_, rows) in sorted(snap.per_pair.items()):
+        for var_name, (_, rows) in snap.per_pair.items():
             row.append((var_name, rows[k]))
-        out[tuple(row)] += 1
+        out[row_key(row)] += 1
     return out
 
 
 def observed_expanded_rows(expanded, snap):
     """Rows of typhon's expanded dataset in the same form; raises Mismatch
-    when the structure does not allow that."""
+    when the structure does not allow that. A variable that has no
+    collocation dimension in the compact dataset may come back with or
+    without one: either way every row carries its value."""
     if "collocation" not in expanded.dims:
         raise Mismatch("no-collocation-dimension", sorted(expanded.dims))
     size = expanded.sizes["collocation"]
     columns = []
-    wanted = [(name + "/" + local, extra)
+    wanted = [(name + "/" + local, extra, False)
               for name in snap.names
-              for local, (extra, _) in sorted(snap.groups[name].items())]
-    wanted += [(v, extra) for v, (extra, _) in sorted(snap.per_pair.items())]
-    for var_name, extra in wanted:
+              for local, (extra, _) in snap.groups[name].items()]
+    wanted += [(v, extra, False) for v, (extra, _) in snap.per_pair.items()]
+    wanted += [(name + "/" + local, dims, True) for name in snap.names
+               for local, (dims, _) in snap.constants[name].items()]
+    for var_name, extra, constant in wanted:
         if var_name not in expanded.variables:
             raise Mismatch("variable-missing", var_name)
         var = expanded[var_name].variable
+        if constant and set(var.dims) == set(extra):
+            columns.append((var_name, [flat(var.transpose(*extra))] * size))
+            continue
         if "collocation" not in var.dims or \
                 set(var.dims) != set(extra) | {"collocation"}:
             raise Mismatch("dimensions-changed", [var_name, list(var.dims)])
@@ -229,8 +317,20 @@ def observed_expanded_rows(expanded, snap):
         columns.append((var_name, rows_of(var, "collocation")[1]))
     out = collections.Counter()
     for k in range(size):
-        out[tuple((v, rows[k]) for v, rows in columns)] += 1
+        out[row_key((v, rows[k]) for v, rows in columns)] += 1
     return out
+
+
+def differing_variables(expected, observed):
+    """Names of the variables whose multisets of row values differ."""
+    def columns(rows):
+        out = collections.defaultdict(collections.Counter)
+        for row, count in rows.items():
+            for name, value in row:
+                out[name][value] += count
+        return out
+    exp, obs = columns(expected), columns(observed)
+    return sorted(n for n in set(exp) | set(obs) if exp.get(n) != obs.get(n))
 
 
 class Mismatch(Exception):
@@ -316,6 +416,10 @@ def compare_collapsed(collapsed, snap, ref_side, funcs):
     if sorted(ids) != sorted(expected):
         return ("rows-not-one-per-reference-point", sorted(expected), ids,
                 "reference ids of the rows")
+    bad = compare_reference_rows(collapsed, snap, ref, ids) or \
+        compare_constants(collapsed, snap)
+    if bad:
+        return bad
     for local, (extra, _) in sorted(snap.groups[other].items()):
         if local in SKIPPED_IN_COLLAPSE:
             continue
@@ -350,6 +454,50 @@ def compare_collapsed(collapsed, snap, ref_side, funcs):
             if name.startswith(prefix) and name[len(prefix):] not in funcs \
                     and name[len(prefix):] in KNOWN_STATISTICS:
                 return ("unrequested-statistic", sorted(funcs), name, "")
+    return None
+
+
+def compare_reference_rows(collapsed, snap, ref, ids):
+    """Every row is a reference point: it carries the values of all variables
+    of the point with its id (time, lat and lon under that name or at the
+    root level)."""
+    position = {row[0]: k for k, row in enumerate(snap.groups[ref][ID][1])}
+    for local, (extra, stored) in sorted(snap.groups[ref].items()):
+        places = [ref + "/" + local] + (
+            [local] if local in SKIPPED_IN_COLLAPSE else [])
+        found = [n for n in places if n in collapsed.variables]
+        if not found:
+            return ("reference-variable-missing", places,
+                    sorted(map(str, collapsed.variables)), "")
+        for name in found:
+            var = collapsed[name].variable
+            if set(var.dims) != set(extra) | {"collocation"}:
+                return ("dimensions-changed", ["collocation"] + list(extra),
+                        list(var.dims), name)
+            rows = rows_of(var.transpose("collocation", *extra),
+                           "collocation")[1]
+            for ref_id, row in zip(ids, rows):
+                if row != stored[position[ref_id]]:
+                    return ("reference-values-changed",
+                            list(stored[position[ref_id]]), list(row),
+                            "%s of reference point id=%s" % (name, ref_id))
+    return None
+
+
+def compare_constants(collapsed, snap):
+    """The statement is silent about variables without collocation dimension;
+    one that is handed on under its name and dimensions has to keep its
+    values."""
+    for name in snap.names:
+        for local, (dims, values) in sorted(snap.constants[name].items()):
+            var_name = name + "/" + local
+            if var_name not in collapsed.variables:
+                continue
+            var = collapsed[var_name].variable
+            if set(var.dims) == set(dims) and \
+                    flat(var.transpose(*dims)) != values:
+                return ("constant-changed", list(values),
+                        list(flat(var.transpose(*dims))), var_name)
     return None
 
 
